@@ -86,3 +86,38 @@ contract(
             " and not (matrix[k, IDX_WIDTH] > min_dim and matrix[k, IDX_HEIGHT] > min_dim))"),
     ],
 )
+
+
+# ---- C03: the arithmetic tail of __lb_q (Dell'Amico / Martello / Vigo, Theorem 3): three exact ceilings and the sum.
+# The sets S1..S4, S23 and S3 - ^S3^ are Python lists built before this block; here they enter through their sizes and
+# sums (ghosts / summaries).  What is proved: the bound returned for one q is exactly
+#     |S1| + |S2| + max(ceil(sum3 / W), ceil(|S3'| / floor(W / (floor(H/2) + 1)))) + max(0, ceil(denom / (W*H)))
+# with integer ceilings, or less (one-sided: a smaller value is still a valid lower bound).  That the expression is a
+# lower bound on the bins is assumption A2.
+from pyvc.spec import Summary as _Summary  # noqa: E402
+
+contract(
+    BI + ":__lb_q#tail",
+    props="C03",
+    block=("assign b1 #0", "return #0"),
+    params={"bin_width": PYINT, "bin_height": PYINT, "sum_s3_l": PYINT},
+    ghosts={"n1": PYINT, "n2": PYINT, "n3": PYINT, "dn": PYINT},
+    i64=False, returns=PYINT,
+    requires=["bin_width >= bin_height and bin_height >= 1",      # _lower_bound_damv normalises to landscape
+              "sum_s3_l >= 0 and n1 >= 0 and n2 >= 0 and n3 >= 0"],
+    summaries={
+        "assign len_s3 #0": _Summary({"len_s3": PYINT}, ["len_s3 == n3"], "len(s3_minus_s3d) = |S3 - ^S3^|"),
+        "assign l_tilde #0": _Summary({"l_tilde": PYINT}, ["l_tilde == n2 + max(b1, b2)"], "len(s2) + max(b1, b2), |S2| = n2"),
+        "assign bound #0": _Summary({"bound": PYINT}, ["bound == n1 + l_tilde"], "len(s1) + l_tilde, |S1| = n1"),
+        "assign denom #0": _Summary({"denom": PYINT}, ["denom == dn"], "sum of squares minus uncovered area (generator sums over the lists)"),
+    },
+    ensures=[
+        # one-sided on purpose: C03 needs the value to be *at most* the DAMV expression (any smaller number is a valid
+        # lower bound as well; the area bound is enforced separately by the max in Instance.__new__)
+        tag("C03", "first-ceiling-not-above-the-exact-ceiling", "(b1 - 1) * bin_width < sum_s3_l or b1 <= 0"),
+        tag("C03", "second-ceiling-not-above-the-exact-ceiling", "div >= 1 and ((b2 - 1) * div < n3 or b2 <= 0)"),
+        tag("C03", "bound-for-this-q-at-most-the-DAMV-expression",
+            "result <= n1 + n2 + max((sum_s3_l + bin_width - 1) // bin_width, (n3 + div - 1) // div)"
+            " + (0 if dn <= 0 else (dn + bin_width * bin_height - 1) // (bin_width * bin_height))"),
+    ],
+)
